@@ -186,6 +186,12 @@ func (ph *ptraceHandle) handle(pid int, wstatus unix.WaitStatus) (status runner.
 			ph.traced[pid] = true
 			// Ptrace set option valid if the tracee is stopped
 			if err := setPtraceOption(pid); err != nil {
+				// the tracee has been killed since it stopped (cancellation):
+				// not a runner fault, wait4 reports how it ended
+				if err == unix.ESRCH {
+					delete(ph.traced, pid)
+					return
+				}
 				status = runner.StatusRunnerError
 				errStr = err.Error()
 				return
@@ -201,6 +207,11 @@ func (ph *ptraceHandle) handle(pid int, wstatus unix.WaitStatus) (status runner.
 				if ph.execved {
 					// give the customized handle for syscall
 					err := ph.handleTrap(pid)
+					// the tracee has been killed since it stopped (cancellation):
+					// not a policy verdict, wait4 reports how it ended
+					if err == unix.ESRCH {
+						return
+					}
 					if err != nil {
 						status = runner.StatusDisallowedSyscall
 						errStr = err.Error()
